@@ -44,6 +44,13 @@ def execute(cfgs, parallel=None, timeout=240, env_extra=None, label='run'):
             if sch:
                 sch.stop()
                 meta['decisions'] = list(sch.decisions)
+        if r.cmdlog and not r.cmdlog[0].get('verdict') and \
+                not spec.get('mode') == 'never':
+            # a configuration of the harness, not a finding: every candidate
+            # "matches" a golden run that does not show the failure
+            raise common.MachineryError(
+                f'{label}{k}: the original input does not satisfy the '
+                f'predicate of its command: {spec}')
         it = Item()
         it.run, it.text, it.spec, it.opts, it.meta = r, text, spec, opts, meta
         it.conv = traceconv.Conv(r)
